@@ -147,6 +147,19 @@ def run(ctx):
                 v = nxt.origin_op(t["discr"], b, len(nxt.blocks[b]["stmts"]))
                 if T.contains(v, lambda x: isinstance(x, tuple) and x[0] == "bin" and x[1] == "BitAnd") and T.contains(v, lambda x: T.is_field(x, "nullmap")):
                     null_test = True
+        # outcome of the long-data lookup on this path (Option discriminant: None = 0, Some = 1)
+        found = None
+        for i, b in enumerate(p.blocks[:-1]):
+            t = nxt.term(b)
+            if t["k"] != "switch":
+                continue
+            dv = p.origin_op(t["discr"], i)
+            if isinstance(dv, tuple) and dv[0] == "discr" and T.is_call(dv[1], r"HashMap::<K, V, S, A>::get$"):
+                taken = [int(x) for x, g in zip(t["vals"], t["tgts"]) if g == p.blocks[i + 1]]
+                if taken:
+                    found = taken == [1]
+                else:
+                    found = "1" not in t["vals"]
         if from_ld:
             n_ld += 1
             ok = not parse_calls and null_test and T.is_call(val, r"Value::<'a>::bytes$")
@@ -155,8 +168,8 @@ def run(ctx):
                    sample={"rule": "override-not-consume", "value": term_str(val)[-120:]})
         else:
             n_inline += 1
-            ok = len(parse_calls) == 1 and bool(get_pos) and null_test
-            ctx.ob("C17.override-not-consume", ok, "an inline parameter is produced without exactly one inline parse after the long-data lookup (parse calls=%d, lookup=%s, null test=%s)" % (len(parse_calls), bool(get_pos), null_test),
+            ok = len(parse_calls) == 1 and bool(get_pos) and null_test and found is False
+            ctx.ob("C17.override-not-consume", ok, "an inline parameter is produced without exactly one inline parse after a long-data lookup that found nothing (parse calls=%d, lookup=%s, lookup found data=%s, null test=%s)" % (len(parse_calls), bool(get_pos), found, null_test),
                    fn=nxt.path, construct="inline-branch", where=nxt.where(p.blocks[-1]))
     ctx.floor("C17.override-not-consume", "long-data value paths", n_ld, 1)
     ctx.floor("C17.override-not-consume", "inline value paths", n_inline, 1)
